@@ -306,6 +306,421 @@ func otSrcIndex(e ast.Expr) (int, bool) {
 	return k, err == nil
 }
 
+// ---- string-typed fields: how the String methods write them, and which of them the parser
+// stores after unquoteString
+
+type otStructInfo struct {
+	fields    []string        // all field names in order (embedded ones by type name)
+	strFields map[string]bool // fields of type string or []byte
+}
+
+func otStructs(file *ast.File) map[string]*otStructInfo {
+	out := map[string]*otStructInfo{}
+	for _, d := range file.Decls {
+		gd, ok := d.(*ast.GenDecl)
+		if !ok || gd.Tok != token.TYPE {
+			continue
+		}
+		for _, sp := range gd.Specs {
+			ts := sp.(*ast.TypeSpec)
+			st, ok := ts.Type.(*ast.StructType)
+			if !ok {
+				continue
+			}
+			info := &otStructInfo{strFields: map[string]bool{}}
+			for _, f := range st.Fields.List {
+				isStr := false
+				switch t := f.Type.(type) {
+				case *ast.Ident:
+					isStr = t.Name == "string"
+				case *ast.ArrayType:
+					if id, ok := t.Elt.(*ast.Ident); ok && t.Len == nil && id.Name == "byte" {
+						isStr = true
+					}
+				}
+				if len(f.Names) == 0 {
+					name := ""
+					switch t := f.Type.(type) {
+					case *ast.Ident:
+						name = t.Name
+					case *ast.StarExpr:
+						if id, ok := t.X.(*ast.Ident); ok {
+							name = id.Name
+						}
+					}
+					info.fields = append(info.fields, name)
+					continue
+				}
+				for _, n := range f.Names {
+					info.fields = append(info.fields, n.Name)
+					if isStr {
+						info.strFields[n.Name] = true
+					}
+				}
+			}
+			out[ts.Name.Name] = info
+		}
+	}
+	return out
+}
+
+type otWrite struct{ typ, field, mode string }
+
+// otStringWrites: for every String method of a struct type, every occurrence of a string-typed
+// field of the receiver in what the method writes, and how it is written:
+//
+//	quote      argument of strconv.Quote
+//	backquote  concatenated between literals that end / begin with a backquote
+//	dquoteRaw  concatenated between literals that end / begin with a double quote
+//	plain      written as it is
+func otStringWrites(file *ast.File, structs map[string]*otStructInfo) ([]otWrite, error) {
+	var out []otWrite
+	for _, d := range file.Decls {
+		fd, ok := d.(*ast.FuncDecl)
+		if !ok || fd.Name.Name != "String" || fd.Recv == nil || len(fd.Recv.List) != 1 || fd.Body == nil || len(fd.Recv.List[0].Names) != 1 {
+			continue
+		}
+		t := fd.Recv.List[0].Type
+		if st, ok := t.(*ast.StarExpr); ok {
+			t = st.X
+		}
+		tid, ok := t.(*ast.Ident)
+		if !ok || structs[tid.Name] == nil {
+			continue
+		}
+		info := structs[tid.Name]
+		recv := fd.Recv.List[0].Names[0].Name
+		var stack []ast.Node
+		var err error
+		ast.Inspect(fd.Body, func(n ast.Node) bool {
+			if n == nil {
+				stack = stack[:len(stack)-1]
+				return true
+			}
+			stack = append(stack, n)
+			sel, ok := n.(*ast.SelectorExpr)
+			if !ok {
+				return true
+			}
+			id, ok := sel.X.(*ast.Ident)
+			if !ok || id.Name != recv || !info.strFields[sel.Sel.Name] {
+				return true
+			}
+			// an occurrence in a condition is not written
+			var cur ast.Node = sel
+			for i := len(stack) - 2; i >= 0; i-- {
+				switch p := stack[i].(type) {
+				case *ast.IfStmt:
+					if p.Cond == cur {
+						return true
+					}
+				case *ast.SwitchStmt:
+					if p.Tag == cur {
+						return true
+					}
+				case *ast.CaseClause:
+					for _, e := range p.List {
+						if e == cur {
+							return true
+						}
+					}
+				}
+				cur = stack[i]
+			}
+			mode := "plain"
+			var node ast.Node = sel
+			i := len(stack) - 2
+			// conversions string(n.F) are transparent
+			for i >= 0 {
+				call, ok := stack[i].(*ast.CallExpr)
+				if !ok {
+					break
+				}
+				if fn, ok := call.Fun.(*ast.Ident); ok && fn.Name == "string" && len(call.Args) == 1 {
+					node = call
+					i--
+					continue
+				}
+				break
+			}
+			if i >= 0 {
+				switch p := stack[i].(type) {
+				case *ast.CallExpr:
+					if name, ok := otSelName(p.Fun, "strconv"); ok {
+						switch name {
+						case "Quote", "QuoteToASCII", "QuoteToGraphic":
+							mode = "quote"
+						default:
+							err = fmt.Errorf("shape not recognised: (*%s).String: %s.%s through strconv.%s", tid.Name, recv, sel.Sel.Name, name)
+						}
+					} else if name, ok := otSelName(p.Fun, "fmt"); ok && strings.HasPrefix(name, "Sprint") {
+						err = fmt.Errorf("shape not recognised: (*%s).String: %s.%s as direct argument of fmt.%s", tid.Name, recv, sel.Sel.Name, name)
+					}
+				case *ast.BinaryExpr:
+					if p.Op == token.ADD {
+						// the whole chain of +
+						top := p
+						for j := i - 1; j >= 0; j-- {
+							if b, ok := stack[j].(*ast.BinaryExpr); ok && b.Op == token.ADD {
+								top = b
+							} else {
+								break
+							}
+						}
+						var ops []ast.Expr
+						var flat func(e ast.Expr)
+						flat = func(e ast.Expr) {
+							if b, ok := e.(*ast.BinaryExpr); ok && b.Op == token.ADD {
+								flat(b.X)
+								flat(b.Y)
+								return
+							}
+							ops = append(ops, e)
+						}
+						flat(top)
+						lit := func(e ast.Expr) (string, bool) {
+							bl, ok := e.(*ast.BasicLit)
+							if !ok || bl.Kind != token.STRING {
+								return "", false
+							}
+							v, err := strconv.Unquote(bl.Value)
+							return v, err == nil
+						}
+						for k, o := range ops {
+							if o != node {
+								continue
+							}
+							before, after := "", ""
+							if k > 0 {
+								before, _ = lit(ops[k-1])
+							}
+							if k+1 < len(ops) {
+								after, _ = lit(ops[k+1])
+							}
+							switch {
+							case strings.HasSuffix(before, "`") && strings.HasPrefix(after, "`"):
+								mode = "backquote"
+							case strings.HasSuffix(before, "\"") && strings.HasPrefix(after, "\""):
+								mode = "dquoteRaw"
+							case strings.HasSuffix(before, "`") || strings.HasSuffix(before, "\"") || strings.HasPrefix(after, "`") || strings.HasPrefix(after, "\""):
+								err = fmt.Errorf("shape not recognised: (*%s).String: %s.%s between unbalanced quotes", tid.Name, recv, sel.Sel.Name)
+							}
+						}
+					}
+				}
+			}
+			out = append(out, otWrite{tid.Name, sel.Sel.Name, mode})
+			return true
+		})
+		if err != nil {
+			return nil, err
+		}
+	}
+	sort.Slice(out, func(i, j int) bool {
+		if out[i].typ != out[j].typ {
+			return out[i].typ < out[j].typ
+		}
+		if out[i].field != out[j].field {
+			return out[i].field < out[j].field
+		}
+		return out[i].mode < out[j].mode
+	})
+	// one entry per (type, field, mode)
+	var uniq []otWrite
+	for i, w := range out {
+		if i == 0 || w != out[i-1] {
+			uniq = append(uniq, w)
+		}
+	}
+	return uniq, nil
+}
+
+// otConstructorField: the field of T that the k-th parameter of ast.NewT initialises.
+func otConstructorField(file *ast.File, structs map[string]*otStructInfo, ctor string, k int) (string, string, error) {
+	fd := otFunc(file, "", ctor)
+	if fd == nil {
+		return "", "", fmt.Errorf("shape not recognised: ast.%s not found", ctor)
+	}
+	var params []string
+	for _, f := range fd.Type.Params.List {
+		for _, n := range f.Names {
+			params = append(params, n.Name)
+		}
+	}
+	if k >= len(params) || len(fd.Body.List) == 0 {
+		return "", "", fmt.Errorf("shape not recognised: ast.%s parameters", ctor)
+	}
+	var cl *ast.CompositeLit
+	ast.Inspect(fd.Body, func(n ast.Node) bool {
+		if c, ok := n.(*ast.CompositeLit); ok && cl == nil {
+			if _, ok := c.Type.(*ast.Ident); ok {
+				cl = c
+			}
+		}
+		return cl == nil
+	})
+	if cl == nil {
+		return "", "", fmt.Errorf("shape not recognised: ast.%s: no composite literal", ctor)
+	}
+	typ := cl.Type.(*ast.Ident).Name
+	info := structs[typ]
+	if info == nil {
+		return "", "", fmt.Errorf("shape not recognised: ast.%s builds %s", ctor, typ)
+	}
+	for i, el := range cl.Elts {
+		if kv, ok := el.(*ast.KeyValueExpr); ok {
+			if v, ok := kv.Value.(*ast.Ident); ok && v.Name == params[k] {
+				return typ, kv.Key.(*ast.Ident).Name, nil
+			}
+			continue
+		}
+		if v, ok := el.(*ast.Ident); ok && v.Name == params[k] && i < len(info.fields) {
+			return typ, info.fields[i], nil
+		}
+	}
+	return "", "", fmt.Errorf("shape not recognised: ast.%s: parameter %s is not stored in a field", ctor, params[k])
+}
+
+// otParserUnquotes: the (type, field) pairs the parser fills with the result of unquoteString.
+func otParserUnquotes(astFile *ast.File, structs map[string]*otStructInfo, files []*ast.File) ([]otWrite, error) {
+	var out []otWrite
+	for _, file := range files {
+		for _, d := range file.Decls {
+			fd, ok := d.(*ast.FuncDecl)
+			if !ok || fd.Body == nil || fd.Name.Name == "unquoteString" {
+				continue
+			}
+			// variables assigned from unquoteString(…), selector targets
+			vars := map[string]bool{}
+			var err error
+			target := func(lhs ast.Expr) {
+				switch l := lhs.(type) {
+				case *ast.Ident:
+					vars[l.Name] = true
+				case *ast.SelectorExpr:
+					// v.F = unquoteString(…): the type of v from `v := ast.NewT(…)` in the same function
+					v, ok := l.X.(*ast.Ident)
+					if !ok {
+						err = fmt.Errorf("shape not recognised: %s: target of unquoteString", fd.Name.Name)
+						return
+					}
+					typ := ""
+					ast.Inspect(fd.Body, func(n ast.Node) bool {
+						as, ok := n.(*ast.AssignStmt)
+						if !ok || len(as.Lhs) != 1 || len(as.Rhs) != 1 {
+							return true
+						}
+						if id, ok := as.Lhs[0].(*ast.Ident); !ok || id.Name != v.Name {
+							return true
+						}
+						if call, ok := as.Rhs[0].(*ast.CallExpr); ok {
+							if name, ok := otSelName(call.Fun, "ast"); ok && strings.HasPrefix(name, "New") {
+								if t, _, e := otConstructorField(astFile, structs, name, 0); e == nil {
+									typ = t
+								}
+							}
+						}
+						return true
+					})
+					if typ == "" || structs[typ] == nil || !structs[typ].strFields[l.Sel.Name] {
+						err = fmt.Errorf("shape not recognised: %s: type of %s in `%s.%s = unquoteString(…)`", fd.Name.Name, v.Name, v.Name, l.Sel.Name)
+						return
+					}
+					out = append(out, otWrite{typ, l.Sel.Name, ""})
+				default:
+					err = fmt.Errorf("shape not recognised: %s: target of unquoteString", fd.Name.Name)
+				}
+			}
+			isUnq := func(e ast.Expr) bool {
+				call, ok := e.(*ast.CallExpr)
+				if !ok {
+					return false
+				}
+				id, ok := call.Fun.(*ast.Ident)
+				return ok && id.Name == "unquoteString"
+			}
+			nUnq, nTargets := 0, 0
+			ast.Inspect(fd.Body, func(n ast.Node) bool {
+				switch s := n.(type) {
+				case *ast.CallExpr:
+					if isUnq(s) {
+						nUnq++
+					}
+				case *ast.AssignStmt:
+					for i, r := range s.Rhs {
+						if isUnq(r) && i < len(s.Lhs) {
+							target(s.Lhs[i])
+							nTargets++
+						}
+					}
+				case *ast.ValueSpec:
+					for i, r := range s.Values {
+						if isUnq(r) && i < len(s.Names) {
+							vars[s.Names[i].Name] = true
+							nTargets++
+						}
+					}
+				}
+				return true
+			})
+			if err != nil {
+				return nil, err
+			}
+			if nUnq != nTargets {
+				return nil, fmt.Errorf("shape not recognised: %s: unquoteString(…) used other than as the right side of an assignment", fd.Name.Name)
+			}
+			if len(vars) == 0 {
+				continue
+			}
+			// where those variables go: arguments of ast.NewT
+			found := map[string]bool{}
+			ast.Inspect(fd.Body, func(n ast.Node) bool {
+				call, ok := n.(*ast.CallExpr)
+				if !ok {
+					return true
+				}
+				name, ok := otSelName(call.Fun, "ast")
+				if !ok || !strings.HasPrefix(name, "New") {
+					return true
+				}
+				for k, a := range call.Args {
+					if id, ok := a.(*ast.Ident); ok && vars[id.Name] {
+						typ, field, e := otConstructorField(astFile, structs, name, k)
+						if e != nil {
+							err = e
+							return false
+						}
+						out = append(out, otWrite{typ, field, ""})
+						found[id.Name] = true
+					}
+				}
+				return true
+			})
+			if err != nil {
+				return nil, err
+			}
+			for v := range vars {
+				if !found[v] {
+					return nil, fmt.Errorf("shape not recognised: %s: the unquoted string %s does not reach an ast constructor", fd.Name.Name, v)
+				}
+			}
+		}
+	}
+	sort.Slice(out, func(i, j int) bool {
+		if out[i].typ != out[j].typ {
+			return out[i].typ < out[j].typ
+		}
+		return out[i].field < out[j].field
+	})
+	var uniq []otWrite
+	for i, w := range out {
+		if i == 0 || w != out[i-1] {
+			uniq = append(uniq, w)
+		}
+	}
+	return uniq, nil
+}
+
 func genOpTokens(repo string) (string, error) {
 	fset := token.NewFileSet()
 	parse := func(rel ...string) (*ast.File, error) {
@@ -1089,6 +1504,41 @@ func genOpTokens(repo string) (string, error) {
 				b.WriteString(", ")
 			}
 			b.WriteString(strconv.Quote(n))
+		}
+		b.WriteString("]\n")
+	}
+	{
+		structs := otStructs(astFile)
+		writes, err := otStringWrites(astFile, structs)
+		if err != nil {
+			return "", err
+		}
+		parserFile, err := parse("internal", "compiler", "parser.go")
+		if err != nil {
+			return "", err
+		}
+		unq, err := otParserUnquotes(astFile, structs, []*ast.File{parserFile, exprFile})
+		if err != nil {
+			return "", err
+		}
+		if len(writes) == 0 || len(unq) == 0 {
+			return "", fmt.Errorf("shape not recognised: no string fields written / unquoted")
+		}
+		b.WriteString("\n/-- how a String method writes a string-typed field of its node -/\ninductive Write where\n  | quote      -- through strconv.Quote\n  | backquote  -- between backquotes, as it is\n  | dquoteRaw  -- between double quotes, as it is\n  | plain      -- as it is\n  deriving DecidableEq, Repr\n")
+		b.WriteString("\n/-- (type, field, how): every occurrence of a string-typed field of the receiver in what a String method of ast.go writes -/\ndef stringWrites : List (String × String × Write) := [")
+		for i, w := range writes {
+			if i > 0 {
+				b.WriteString(",")
+			}
+			fmt.Fprintf(&b, "\n  (%q, %q, .%s)", w.typ, w.field, w.mode)
+		}
+		b.WriteString("]\n")
+		b.WriteString("\n/-- (type, field): the fields the parser fills with the result of unquoteString (the content of a string literal, not its text) -/\ndef parserUnquotes : List (String × String) := [")
+		for i, w := range unq {
+			if i > 0 {
+				b.WriteString(", ")
+			}
+			fmt.Fprintf(&b, "(%q, %q)", w.typ, w.field)
 		}
 		b.WriteString("]\n")
 	}
